@@ -496,39 +496,26 @@ def read_union(
     return_record_name = options.get("return_record_name")
     return_named_type_override = options.get("return_named_type_override")
     return_named_type = options.get("return_named_type")
+    # The branch that was read, as a definition: the reader's when there is a
+    # reader schema. Either side may give it inline or by name.
+    if idx_reader_schema is not None:
+        branch = idx_reader_schema
+        if not isinstance(branch, (dict, list)) and branch in named_schemas["reader"]:
+            branch = named_schemas["reader"][branch]
+    else:
+        branch = idx_schema
+        if not isinstance(branch, (dict, list)) and branch in named_schemas["writer"]:
+            branch = named_schemas["writer"][branch]
+    branch_type = extract_record_type(branch)
+
     if return_named_type_override and is_single_name_union(writer_schema):
         return result
-    elif return_named_type and extract_record_type(idx_schema) in NAMED_TYPES:
-        schema_name = (
-            idx_reader_schema["name"] if idx_reader_schema else idx_schema["name"]
-        )
-        return (schema_name, result)
-    elif return_named_type and extract_record_type(idx_schema) not in AVRO_TYPES:
-        # idx_schema is a named type
-        schema_name = (
-            named_schemas["reader"][idx_reader_schema]["name"]
-            if idx_reader_schema
-            else named_schemas["writer"][idx_schema]["name"]
-        )
-        return (schema_name, result)
+    elif return_named_type and branch_type in NAMED_TYPES:
+        return (branch["name"], result)
     elif return_record_name_override and is_single_record_union(writer_schema):
         return result
-    elif return_record_name and extract_record_type(idx_schema) == "record":
-        schema_name = (
-            idx_reader_schema["name"] if idx_reader_schema else idx_schema["name"]
-        )
-        return (schema_name, result)
-    elif return_record_name and extract_record_type(idx_schema) not in AVRO_TYPES:
-        # idx_schema is a reference by name: like an inline definition it is
-        # reported with its name only when it is a record
-        named_schema = (
-            named_schemas["reader"][idx_reader_schema]
-            if idx_reader_schema
-            else named_schemas["writer"][idx_schema]
-        )
-        if extract_record_type(named_schema) != "record":
-            return result
-        return (named_schema["name"], result)
+    elif return_record_name and branch_type == "record":
+        return (branch["name"], result)
     else:
         return result
 
